@@ -52,6 +52,12 @@ lanewise2!(mm_cmple_ps, |a, b| mask(a <= b));
 lanewise2!(mm_cmpgt_ps, |a, b| mask(a > b));
 lanewise2!(mm_cmpge_ps, |a, b| mask(a >= b));
 lanewise2!(mm_cmpunord_ps, |a, b| mask(a != a || b != b));
+// negated / ordered predicates (not used by glam today; modelled so that a change to one of them is decided, not undecided)
+lanewise2!(mm_cmpord_ps, |a, b| mask(a == a && b == b));
+lanewise2!(mm_cmpnlt_ps, |a, b| mask(!(a < b)));
+lanewise2!(mm_cmpnle_ps, |a, b| mask(!(a <= b)));
+lanewise2!(mm_cmpngt_ps, |a, b| mask(!(a > b)));
+lanewise2!(mm_cmpnge_ps, |a, b| mask(!(a >= b)));
 
 pub fn mm_add_ss(a: __m128, b: __m128) -> __m128 {
     let (a, b) = (f(a), f(b));
